@@ -15,8 +15,11 @@ Two models, both executable, core Lean only (linked into `bsmodel`).
   the order of {validate arguments, fallible debugger call, send response, enqueue events, drain} —
   with the rule of `run`: *handler returns `Err` ⇒ an error response is sent and the loop continues*.
 
-What the debuggee does (stops, exits, how many threads appear) is not known to the adapter model; it
-enters as `Hint`s of a request (DESIGN 1.2.3: "with the debugger outcomes it observed").
+What the debuggee does (stops, exits, which threads the debugger lists, whether a fallible debugger
+call succeeds) is not known to the adapter model; it enters as `Hint`s of a request (DESIGN 1.2.3: "with
+the debugger outcomes it observed").  What the ADAPTER owes — responses, the thread-cache diff
+(`refresh_threads_with_events`), the cancellation bookkeeping (`canceled_request_ids`,
+`canceled_progress_ids`, `consume_cancellation`), progress ids — is computed by the model.
 -/
 namespace BsVerif.Dap
 
@@ -102,26 +105,50 @@ end Writer
 
 /-! ## Session model -/
 
+/-- every arm of `dispatch` (Gen/DapDispatch.lean, checked by `#guard`s in Props/C12.lean);
+`frobnicate` stands for any command `dispatch` does not know -/
 inductive Cmd
-  | initialize | launch | setBreakpoints | configurationDone | threads | stackTrace | scopes
-  | variables | continue_ | next | stepIn | stepOut | pause | evaluate | disconnect | terminate
-  | terminateThreads | frobnicate
+  | initialize | launch | attach | configurationDone | setBreakpoints | setFunctionBreakpoints
+  | setInstructionBreakpoints | setExceptionBreakpoints | dataBreakpointInfo | setDataBreakpoints
+  | breakpointLocations | exceptionInfo | threads | stackTrace | scopes | variables | setVariable
+  | continue_ | restart | restartFrame | next | stepIn | stepInTargets | stepOut | stepBack
+  | reverseContinue | pause | gotoTargets | goto | evaluate | setExpression | completions
+  | loadedSources | modules | readMemory | writeMemory | disassemble | terminate | terminateThreads
+  | cancel | runInTerminal | disconnect | source | frobnicate
   deriving Repr, DecidableEq
 
-/-- the protocol name of a command (`frobnicate` stands for any command `dispatch` does not know) -/
 def cmdName : Cmd → String
-  | .initialize => "initialize" | .launch => "launch" | .setBreakpoints => "setBreakpoints"
-  | .configurationDone => "configurationDone" | .threads => "threads" | .stackTrace => "stackTrace"
-  | .scopes => "scopes" | .variables => "variables" | .continue_ => "continue" | .next => "next"
-  | .stepIn => "stepIn" | .stepOut => "stepOut" | .pause => "pause" | .evaluate => "evaluate"
-  | .disconnect => "disconnect" | .terminate => "terminate" | .terminateThreads => "terminateThreads"
+  | .initialize => "initialize" | .launch => "launch" | .attach => "attach"
+  | .configurationDone => "configurationDone" | .setBreakpoints => "setBreakpoints"
+  | .setFunctionBreakpoints => "setFunctionBreakpoints"
+  | .setInstructionBreakpoints => "setInstructionBreakpoints"
+  | .setExceptionBreakpoints => "setExceptionBreakpoints" | .dataBreakpointInfo => "dataBreakpointInfo"
+  | .setDataBreakpoints => "setDataBreakpoints" | .breakpointLocations => "breakpointLocations"
+  | .exceptionInfo => "exceptionInfo" | .threads => "threads" | .stackTrace => "stackTrace"
+  | .scopes => "scopes" | .variables => "variables" | .setVariable => "setVariable"
+  | .continue_ => "continue" | .restart => "restart" | .restartFrame => "restartFrame" | .next => "next"
+  | .stepIn => "stepIn" | .stepInTargets => "stepInTargets" | .stepOut => "stepOut" | .stepBack => "stepBack"
+  | .reverseContinue => "reverseContinue" | .pause => "pause" | .gotoTargets => "gotoTargets"
+  | .goto => "goto" | .evaluate => "evaluate" | .setExpression => "setExpression"
+  | .completions => "completions" | .loadedSources => "loadedSources" | .modules => "modules"
+  | .readMemory => "readMemory" | .writeMemory => "writeMemory" | .disassemble => "disassemble"
+  | .terminate => "terminate" | .terminateThreads => "terminateThreads" | .cancel => "cancel"
+  | .runInTerminal => "runInTerminal" | .disconnect => "disconnect" | .source => "source"
   | .frobnicate => "frobnicate"
 
 def allCmds : List Cmd :=
-  [.initialize, .launch, .setBreakpoints, .configurationDone, .threads, .stackTrace, .scopes, .variables,
-   .continue_, .next, .stepIn, .stepOut, .pause, .evaluate, .disconnect, .terminate, .terminateThreads, .frobnicate]
+  [.initialize, .launch, .attach, .configurationDone, .setBreakpoints, .setFunctionBreakpoints,
+   .setInstructionBreakpoints, .setExceptionBreakpoints, .dataBreakpointInfo, .setDataBreakpoints,
+   .breakpointLocations, .exceptionInfo, .threads, .stackTrace, .scopes, .variables, .setVariable,
+   .continue_, .restart, .restartFrame, .next, .stepIn, .stepInTargets, .stepOut, .stepBack,
+   .reverseContinue, .pause, .gotoTargets, .goto, .evaluate, .setExpression, .completions,
+   .loadedSources, .modules, .readMemory, .writeMemory, .disassemble, .terminate, .terminateThreads,
+   .cancel, .runInTerminal, .disconnect, .source, .frobnicate]
 
-/-- argument mutation of a request (see harness `build_args`) -/
+/-- argument mutation of a request (see harness `build_args`): `valid` well-typed arguments; `missing`
+a required member is absent; `illtyped` a required member (or the `arguments` value itself) has the wrong
+JSON type; `noargs` no `arguments` member at all; `nofile` (launch/attach) a well-typed target that does
+not exist.  `Req.param` selects among several valid forms of a command. -/
 inductive Mut
   | valid | missing | illtyped | noargs | nofile
   deriving Repr, DecidableEq
@@ -131,37 +158,52 @@ inductive Dbg
   | none | unload | inProgress | exited
   deriving Repr, DecidableEq
 
+/-- `session_mode` -/
+inductive Mode | none | launch | attach
+  deriving Repr, DecidableEq
+
 /-- what the debuggee did during a fallible debugger call (observed, not predicted) -/
 inductive Outcome
   | stop (reason : String) | exit | none
   deriving Repr, DecidableEq
 
+/-- observations about the DEBUGGEE / debugger library (never about what the adapter owes) -/
 structure Hint where
   outcome : Outcome := .none
-  threadsStarted : Nat := 0
-  threadsExited : Nat := 0
-  evalOk : Bool := false
+  /-- the thread list the debugger returned to the `refresh_threads_with_events` of this request -/
+  tl : List Nat := []
+  /-- did the fallible debugger call of a query/modify handler succeed (evaluate, readMemory, …) -/
+  callOk : Bool := false
+  /-- stackTrace: number of frames without line info that needed a fresh disassembly source -/
+  pg : Nat := 0
+  /-- setDataBreakpoints: number of watchpoints the debugger accepted -/
+  nrec : Nat := 0
+  /-- a request that starts the debuggee failed: what became of the debuggee process nevertheless (the library can fail
+  half-way through a start); `none` = not observed: the model keeps its state -/
+  dbgAfter : Dbg := .none
   deriving Repr
 
-/-- events the session puts into its queue and `send_events` forwards unchanged (bodies dropped;
-progress events are canonicalised away by the harness and not modelled) -/
+/-- events the session puts into its queue and `send_events` forwards unchanged (bodies dropped except
+thread ids and progress ids) -/
 inductive QEv
-  | capabilities | process | moduleNew | sourceNew | threadStarted | threadExited
+  | capabilities | process | moduleNew | sourceNew
+  | threadStarted (t : Nat) | threadExited (t : Nat)
   | stopped (reason : String) | continued | bpChanged | bpRemoved
+  | progressStart (n : Nat) | progressUpdate (n : Nat) | progressEnd (n : Nat) | invalidated
+  | initialized          -- `InternalEvent::Initialized`, queued by `handle_initialize`
   deriving Repr, DecidableEq
 
 /-- events as they appear on the wire -/
 inductive Ev
   | q (e : QEv)          -- from the queue
-  | initialized          -- `InternalEvent::Initialized`, queued by `handle_initialize`
-  | moduleRemoved | sourceRemoved | threadExitedAtEnd   -- `emit_process_end` (direct sends inside `drain_events`)
+  | initialized          -- as found `initialized` was sent directly, past the queue; now it is `q .initialized` (kept for the monitors)
+  | moduleRemoved | sourceRemoved | threadExitedAtEnd (t : Nat)  -- `emit_process_end` (direct sends inside `drain_events`)
   | exited | terminated  -- lifecycle, only from `drain_events`
   deriving Repr, DecidableEq
 
 /-- `InternalEvent` (the queue) -/
 inductive IEv
   | ev (e : QEv)
-  | initialized
   | exited
   | terminated
   deriving Repr, DecidableEq
@@ -184,15 +226,38 @@ structure Sess where
   terminated : Bool := false
   queue : List IEv := []
   moduleInfo : Bool := false
-  bpRecords : Nat := 0
+  bpRecords : Nat := 0          -- `breakpoints_by_source[the source]`
+  fnBp : Nat := 0               -- `function_breakpoints`
+  insBp : Nat := 0              -- `instruction_breakpoints`
+  dataBp : Nat := 0             -- `data_breakpoints`
   alive : Bool := true
+  mode : Mode := .none          -- `session_mode`
+  lastStop : Bool := false      -- `last_stop.is_some()`
+  threadCache : List Nat := []  -- keys of `thread_cache`
+  nextProgress : Nat := 1       -- `next_progress_id`
+  curProgress : Nat := 0        -- the progress id the running handler holds
+  cancelledReqs : List Nat := []      -- `canceled_request_ids`
+  cancelledProgress : List Nat := []  -- `canceled_progress_ids` (`bs-progress-<n>`; foreign strings = 0)
   deriving Repr
 
+/-! ### thread cache -/
+
+/-- set semantics of `HashSet<i64>`: first occurrences, order kept -/
+def dedup : List Nat → List Nat
+  | [] => []
+  | a :: l => if (dedup l).contains a then dedup l else a :: dedup l
+
+/-- `refresh_threads_with_events`: the events from the difference between the old cache and the list
+the debugger reports: `started` for new ids, then `exited` for vanished ones -/
+def refreshEvents (cache tl : List Nat) : List IEv :=
+  ((dedup tl).filter (fun t => !cache.contains t)).map (fun t => IEv.ev (.threadStarted t)) ++
+  (cache.filter (fun t => !(dedup tl).contains t)).map (fun t => IEv.ev (.threadExited t))
+
 /-- `emit_process_end`: `module`/`loadedSource` removed if `module_info` is set (taken), then one
-`thread exited` per cached thread (count observed) -/
-def processEndMsgs (moduleInfo : Bool) (nThreads : Nat) : List Msg :=
+`thread exited` per cached thread (the cache itself is NOT cleared) -/
+def processEndMsgs (moduleInfo : Bool) (cache : List Nat) : List Msg :=
   (if moduleInfo then [Msg.event .moduleRemoved, Msg.event .sourceRemoved] else [])
-    ++ List.replicate nThreads (Msg.event .threadExitedAtEnd)
+    ++ cache.map (fun t => Msg.event (.threadExitedAtEnd t))
 
 def IEv.isExited : IEv → Bool | .exited => true | _ => false
 def IEv.isTerminated : IEv → Bool | .terminated => true | _ => false
@@ -201,43 +266,69 @@ def IEv.isTerminated : IEv → Bool | .terminated => true | _ => false
 def sendAll : List IEv → List Msg
   | [] => []
   | .ev e :: r => Msg.event (.q e) :: sendAll r
-  | .initialized :: r => Msg.event .initialized :: sendAll r
   | _ :: r => sendAll r
 
-/-- `drain_events`.  `nThreads` = size of `thread_cache` when the process ends (observed).
-In the lifecycle branches only `Output` events of the batch are sent; the modelled handlers never queue
-`Output`, so nothing of the batch survives. -/
-def drain (s : Sess) (nThreads : Nat) : Sess × List Msg :=
+/-- `drain_events`.  In the lifecycle branches only `Output` events of the batch are sent; the modelled
+handlers never queue `Output`, so nothing of the batch survives. -/
+def drain (s : Sess) : Sess × List Msg :=
   let q := s.queue
   let s := { s with queue := [] }
   if s.terminated then (s, [])
   else if q.any IEv.isExited then
     ({ s with terminated := true, moduleInfo := false },
-     processEndMsgs s.moduleInfo nThreads ++ [Msg.event .exited, Msg.event .terminated])
+     processEndMsgs s.moduleInfo s.threadCache ++ [Msg.event .exited, Msg.event .terminated])
   else if q.any IEv.isTerminated then
     ({ s with terminated := true, moduleInfo := false },
-     processEndMsgs s.moduleInfo nThreads ++ [Msg.event .terminated])
+     processEndMsgs s.moduleInfo s.threadCache ++ [Msg.event .terminated])
   else (s, sendAll q)
+
+def insertSet (n : Nat) (l : List Nat) : List Nat := if l.contains n then l else n :: l
+def removeSet (n : Nat) (l : List Nat) : List Nat := l.filter (· != n)
 
 /-- the atomic actions a handler is made of: its *skeleton* is a list of these -/
 inductive Act
   | respond (ok : Bool)      -- `send_response_raw` for the request being handled
   | enq (es : List IEv)      -- `enqueue_event` (several)
-  | drain (nThreads : Nat)   -- `drain_events()`
+  | drain                    -- `drain_events()`
+  | refresh (tl : List Nat)  -- `refresh_threads_with_events()` with the list the debugger reports
+  | progStart                -- `enqueue_progress_start`: takes the next progress id
+  | progUpdate               -- `enqueue_progress_update` for the id held
+  | progEnd                  -- `enqueue_progress_end` for the id held
+  | cancelReq (n : Nat)      -- `canceled_request_ids.insert(n)`
+  | cancelProg (n : Nat)     -- `canceled_progress_ids.insert(..)`
+  | consumeReq               -- `canceled_request_ids.remove(&req.seq)`
+  | consumeProg              -- `canceled_progress_ids.remove(progress_id)`
   | setDbg (d : Dbg)         -- the debugger appears / changes execution status / is dropped
+  | setMode (m : Mode)
+  | setLastStop (b : Bool)
   | setModuleInfo            -- `emit_process_start` records `module_info`
   | setBp (k : Nat)          -- breakpoint records of the source
-  | resetLatch               -- `self.terminated = false` (`handle_launch`)
+  | setFnBp (k : Nat) | setInsBp (k : Nat) | setDataBp (k : Nat)
+  | resetLatch               -- `self.terminated = false` (`handle_launch`, `handle_attach`)
   | endSession               -- `run` leaves its loop
   deriving Repr
 
 def execAct (r : Req) (s : Sess) : Act → Sess × List Msg
   | .respond ok => (s, [.resp r.cmd ok r.seq])
   | .enq es => ({ s with queue := s.queue ++ es }, [])
-  | .drain n => drain s n
+  | .drain => drain s
+  | .refresh tl => ({ s with queue := s.queue ++ refreshEvents s.threadCache tl, threadCache := dedup tl }, [])
+  | .progStart => ({ s with queue := s.queue ++ [.ev (.progressStart s.nextProgress)],
+                            curProgress := s.nextProgress, nextProgress := s.nextProgress + 1 }, [])
+  | .progUpdate => ({ s with queue := s.queue ++ [.ev (.progressUpdate s.curProgress)] }, [])
+  | .progEnd => ({ s with queue := s.queue ++ [.ev (.progressEnd s.curProgress)] }, [])
+  | .cancelReq n => ({ s with cancelledReqs := insertSet n s.cancelledReqs }, [])
+  | .cancelProg n => ({ s with cancelledProgress := insertSet n s.cancelledProgress }, [])
+  | .consumeReq => ({ s with cancelledReqs := removeSet r.seq s.cancelledReqs }, [])
+  | .consumeProg => ({ s with cancelledProgress := removeSet s.curProgress s.cancelledProgress }, [])
   | .setDbg d => ({ s with dbg := d }, [])
+  | .setMode m => ({ s with mode := m }, [])
+  | .setLastStop b => ({ s with lastStop := b }, [])
   | .setModuleInfo => ({ s with moduleInfo := true }, [])
   | .setBp k => ({ s with bpRecords := k }, [])
+  | .setFnBp k => ({ s with fnBp := k }, [])
+  | .setInsBp k => ({ s with insBp := k }, [])
+  | .setDataBp k => ({ s with dataBp := k }, [])
   | .resetLatch => ({ s with terminated := false }, [])
   | .endSession => ({ s with alive := false }, [.sessionEnd])
 
@@ -252,122 +343,267 @@ def exec (r : Req) : Sess → List Act → Sess × List Msg
 inductive HRes | ok | err | stop
   deriving Repr, DecidableEq
 
-/-- commands whose required argument is absent under the mutation (handler returns `Err` in its
-argument validation) -/
-def badArgs (c : Cmd) (m : Mut) : Bool :=
-  match c with
-  | .launch | .setBreakpoints | .stackTrace | .scopes | .variables | .evaluate =>
-    m == .missing || m == .illtyped || m == .noargs
-  | .terminateThreads => m == .illtyped || m == .noargs
+/-- the three mutations that take a required member away -/
+def argAbsent : Mut → Bool
+  | .missing | .illtyped | .noargs => true
   | _ => false
 
-/-- thread refresh (`refresh_threads_with_events`): started events, then exited events -/
-def threadEvents (h : Hint) : List IEv :=
-  List.replicate h.threadsStarted (.ev .threadStarted) ++ List.replicate h.threadsExited (.ev .threadExited)
+/-- commands with a required argument member: every one of `missing`/`illtyped`/`noargs` makes the
+handler fail in its argument validation -/
+def requiresArg : Cmd → Bool
+  | .launch | .attach | .setBreakpoints | .dataBreakpointInfo | .breakpointLocations | .stackTrace
+  | .scopes | .variables | .setVariable | .restartFrame | .stepInTargets | .gotoTargets | .goto
+  | .evaluate | .setExpression | .completions | .readMemory | .writeMemory | .disassemble
+  | .runInTerminal | .source => true
+  | _ => false
+
+def badArgs (c : Cmd) (m : Mut) : Bool := requiresArg c && argAbsent m
 
 /-- `emit_stop_reason` after the filters: exit → queue `Exited`, drain; stop → refresh threads, queue
 `Stopped`, drain -/
 def emitStop (h : Hint) : List Act :=
   match h.outcome with
-  | .exit => [.setDbg .exited, .enq [.exited], .drain h.threadsExited]
-  | .stop r => [.setDbg .inProgress, .enq (threadEvents h ++ [.ev (.stopped r)]), .drain 0]
+  | .exit => [.setDbg .exited, .setLastStop false, .enq [.exited], .drain]
+  | .stop r => [.setDbg .inProgress, .refresh h.tl, .setLastStop true, .enq [.ev (.stopped r)], .drain]
   | .none => []
 
-/-- `terminate_debuggee(); drain_events()` -/
-def terminateDebuggee (h : Hint) : List Act :=
-  [.setDbg .none, .enq [.terminated], .drain h.threadsExited]
+/-- `emit_manual_stop(reason)` (goto / restartFrame) and `emit_attached_stop` -/
+def manualStop (reason : String) (h : Hint) : List Act :=
+  [.refresh h.tl, .setLastStop true, .enq [.ev (.stopped reason)], .drain]
 
-/-- shared skeleton of `next`, `stepIn`, `stepOut` -/
-def stepPlan (dbg : Dbg) (h : Hint) : List Act × HRes :=
+/-- `terminate_debuggee(); drain_events()` -/
+def terminateDebuggee : List Act :=
+  [.setDbg .none, .enq [.terminated], .drain]
+
+/-- shared skeleton of `next`, `stepIn`, `stepOut` (`setsLast`: only `next` records `last_stop`) -/
+def stepPlan (setsLast : Bool) (dbg : Dbg) (h : Hint) : List Act × HRes :=
   match dbg with
   | .none => ([], .err)                                   -- `ok_or_else(..)?`
   | .unload | .exited => ([.respond false], .ok)          -- `Err(e) => send_err(..)`
   | .inProgress =>
     match h.outcome with
-    | .stop _ => ([.enq [.ev .continued], .respond true, .enq [.ev (.stopped "step")], .drain 0], .ok)
-    | .exit => ([.setDbg .exited, .enq [.ev .continued], .respond true, .enq [.exited], .drain h.threadsExited], .ok)
+    | .stop _ => ([.enq [.ev .continued], .respond true] ++ (if setsLast then [.setLastStop true] else [])
+                    ++ [.enq [.ev (.stopped "step")], .drain], .ok)
+    | .exit => ([.setDbg .exited, .enq [.ev .continued], .respond true, .enq [.exited], .drain], .ok)
     | .none => ([.respond false], .ok)
 
-/-- `dispatch`: the handler skeletons — for each command the order of {validate arguments, fallible
-debugger call, send response, enqueue events, drain} as a list of actions, and the handler's result.
-Control flow depends on the session only through `dbg` and the number of breakpoint records. -/
-def plan (dbg : Dbg) (bpRecords : Nat) (r : Req) (h : Hint) : List Act × HRes :=
+/-- a whole progress bracket around nothing: start, drain, update+end, drain -/
+def progBracket : List Act := [.progStart, .drain, .progUpdate, .progEnd, .drain]
+
+/-- `handle_stack_trace` after the first cancellation check: one `disasm_source_for_address` per frame
+without line info (`n` of them, observed), each taking a progress id and checking
+`consume_cancellation(req, Some(progress_id))`; then the response -/
+def stLoop (cp : List Nat) : Nat → Nat → List Act
+  | _, 0 => [.respond true]
+  | next, n + 1 =>
+    [.progStart, .drain] ++
+      (if cp.contains next then [.consumeProg, .progEnd, .drain, .respond false]
+       else [.progUpdate, .progEnd, .drain] ++ stLoop cp (next + 1) n)
+
+/-- query handlers without events: argument validation, debugger presence, fallible call, response -/
+def query (bad needDbg : Bool) (dbg : Dbg) (ok : Bool) (post : List Act) : List Act × HRes :=
+  if bad then ([], .err)
+  else if needDbg && dbg == .none then ([], .err)
+  else if ok then (.respond true :: post, .ok)
+  else ([], .err)
+
+def isValid (m : Mut) : Bool := m == .valid || m == .nofile
+
+/-- number of source breakpoints the harness sends for `param` (`src_bp_names`) -/
+def srcBpCount (p : Nat) : Nat := if p ≤ 3 then p else (p - 3) % 3
+
+/-- number of entries of a `breakpoints` array under the mutation (absent / ill-typed → empty) -/
+def bpCount (r : Req) : Nat := if isValid r.mutn then min r.param 3 else 0
+
+/-- `dispatch`: the handler skeletons — for each command the order of {cancellation check, validate
+arguments, fallible debugger call, send response, enqueue events, drain} as a list of actions, and the
+handler's result. -/
+def plan (s : Sess) (r : Req) (h : Hint) : List Act × HRes :=
+  let dbg := s.dbg
   match r.cmd with
-  | .initialize => ([.respond true, .enq [.initialized], .drain 0], .ok)   -- queued: behind the latch
+  | .initialize => ([.respond true, .enq [.ev .initialized], .drain], .ok)   -- queued: behind the latch
   | .launch =>
     if badArgs r.cmd r.mutn then ([], .err)
     else if r.mutn == .nofile then
-      ([.resetLatch, .enq [.ev .capabilities], .drain 0], .err)        -- `build_debugger(..)?`
+      ([.resetLatch, .setMode .launch, .progStart, .enq [.ev .capabilities], .drain], .err)   -- `build_debugger(..)?`
     else
-      ([.resetLatch, .enq [.ev .capabilities], .drain 0, .setDbg .unload, .setModuleInfo,
-        .enq [.ev .process, .ev .moduleNew, .ev .sourceNew], .respond true, .drain 0], .ok)
+      ([.resetLatch, .setMode .launch, .progStart, .enq [.ev .capabilities], .drain, .setDbg .unload, .setModuleInfo,
+        .enq [.ev .process, .ev .moduleNew, .ev .sourceNew], .progUpdate, .progEnd, .respond true, .drain], .ok)
+  | .attach =>
+    if badArgs r.cmd r.mutn then ([], .err)
+    else if r.mutn == .nofile then
+      ([.resetLatch, .setMode .attach, .progStart, .enq [.ev .capabilities], .drain], .err)   -- `build_attached_debugger(..)?`
+    else
+      ([.resetLatch, .setMode .attach, .progStart, .enq [.ev .capabilities], .drain, .setDbg .inProgress, .setModuleInfo,
+        .enq [.ev .process, .ev .moduleNew, .ev .sourceNew], .progUpdate, .progEnd, .respond true, .drain], .ok)
+  | .configurationDone =>
+    if dbg == .none then ([], .err)
+    else if s.mode == .attach then (.respond true :: manualStop "pause" h, .ok)
+    else match dbg with
+    | .unload =>
+      match h.outcome with
+      | .none => ([.setDbg (if h.dbgAfter == .none then dbg else h.dbgAfter)], .err)   -- `start_debugee_with_reason()?`
+      | _ => (.respond true :: emitStop h, .ok)
+    | _ => ([], .err)                                             -- `AlreadyRun`
   | .setBreakpoints =>
     if badArgs r.cmd r.mutn then ([], .err)
     else if dbg == .none then ([.setBp 0], .err)                   -- `breakpoints_by_source.remove(..)` then `?`
     else
-      let k := min r.param 3
-      ([.setBp k, .enq (List.replicate bpRecords (.ev .bpRemoved) ++ List.replicate k (.ev .bpChanged)),
-        .respond true, .drain 0], .ok)
-  | .configurationDone =>
-    match dbg with
-    | .unload =>
-      match h.outcome with
-      | .none => ([], .err)                                        -- `start_debugee_with_reason()?`
-      | _ => (.respond true :: emitStop h, .ok)
-    | _ => ([], .err)                                             -- no debugger, or `AlreadyRun`
+      let k := srcBpCount r.param
+      ([.setBp k, .enq (List.replicate s.bpRecords (.ev .bpRemoved) ++ List.replicate k (.ev .bpChanged)),
+        .respond true, .drain], .ok)
+  | .setFunctionBreakpoints =>
+    -- `mem::take(function_breakpoints)`, progress only for a non-empty list, THEN the debugger check
+    let k := bpCount r
+    let pre : List Act := .setFnBp 0 :: (if k == 0 then [] else [.progStart, .drain])
+    if dbg == .none then (pre, .err)
+    else
+      (pre ++ [.setFnBp k, .enq (List.replicate s.fnBp (.ev .bpRemoved) ++ List.replicate k (.ev .bpChanged))]
+        ++ (if k == 0 then [] else [.progUpdate, .progEnd, .drain]) ++ [.respond true, .drain], .ok)
+  | .setInstructionBreakpoints =>
+    let k := bpCount r
+    if dbg == .none then ([.setInsBp 0], .err)
+    else ([.setInsBp k, .enq (List.replicate s.insBp (.ev .bpRemoved) ++ List.replicate k (.ev .bpChanged)),
+           .respond true, .drain], .ok)
+  | .setExceptionBreakpoints => ([.respond true], .ok)
+  | .dataBreakpointInfo => query (badArgs r.cmd r.mutn) false dbg true []
+  | .setDataBreakpoints =>
+    let k := bpCount r
+    if dbg == .none then ([.setDataBp 0], .err)
+    else ([.setDataBp (min h.nrec k), .enq (List.replicate s.dataBp (.ev .bpRemoved) ++ List.replicate k (.ev .bpChanged)),
+           .respond true, .drain], .ok)
+  | .breakpointLocations =>
+    if badArgs r.cmd r.mutn then ([], .err)
+    else match r.param % 3 with
+    | 0 => query false true dbg h.callOk []                        -- `source` form
+    | 1 =>                                                         -- `instructionReference` form
+      if dbg == .none then ([.progStart, .drain], .err)            -- progress opened, never closed
+      else if h.callOk then ([.progStart, .drain, .progUpdate, .progEnd, .drain, .respond true], .ok)
+      else ([.progStart, .drain], .err)
+    | _ => ([.respond false], .ok)                                 -- neither: `send_err`
+  | .exceptionInfo => if s.lastStop then ([.respond true], .ok) else ([.respond false], .ok)
   | .threads =>
     if dbg == .none then ([], .err)
-    else ([.enq (threadEvents h), .respond true], .ok)             -- drained at the top of `run`
+    else ([.refresh h.tl, .respond true], .ok)                     -- drained at the top of `run`
   | .stackTrace =>
-    if badArgs r.cmd r.mutn then ([], .err)
+    -- `consume_cancellation(req, None)` comes first, before the arguments are looked at
+    if s.cancelledReqs.contains r.seq then ([.consumeReq, .respond false], .ok)
+    else if badArgs r.cmd r.mutn then ([], .err)
     else if dbg == .none then ([], .err)
-    else ([.respond true], .ok)
+    else (stLoop s.cancelledProgress s.nextProgress h.pg, .ok)
   | .scopes =>
     if dbg == .none then ([], .err)
     else if badArgs r.cmd r.mutn then ([], .err)
     else ([.respond true], .ok)
   | .variables =>
     if badArgs r.cmd r.mutn then ([], .err) else ([.respond true], .ok)
-  | .evaluate =>
-    if badArgs r.cmd r.mutn then ([], .err)
-    else if dbg == .inProgress && h.evalOk then ([.respond true], .ok)
-    else ([], .err)
+  | .setVariable => query (badArgs r.cmd r.mutn) true dbg h.callOk [.enq [.ev .invalidated], .drain]
   | .continue_ =>
     -- the execution status is looked at first: no debugger / exited ⇒ `Err`; loaded but not started ⇒
     -- accepted, nothing continues, no `continued`; in progress ⇒ the response and `continued` are sent
-    -- BEFORE the blocking debugger call, and a failure of that call is announced as a stop, not as a
-    -- second response (control.rs handle_continue, emit_stop_reason_answered)
+    -- BEFORE the blocking debugger call, and a failure of that call (e.g. the debuggee was killed by a
+    -- signal behind the debugger's back) is announced as a stop, not as a second response
+    -- (control.rs handle_continue, emit_stop_reason_answered)
     match dbg with
     | .none | .exited => ([], .err)
     | .unload => ([.respond true], .ok)
     | .inProgress =>
-      let pre : List Act := [.enq [.ev .continued], .respond true, .drain 0]
+      let pre : List Act := [.enq [.ev .continued], .respond true, .drain]
       match h.outcome with
-      | .none => (pre ++ [.enq (threadEvents h ++ [.ev (.stopped "exception")]), .drain 0], .ok)
+      | .none => (pre ++ manualStop "exception" h, .ok)
       | _ => (pre ++ emitStop h, .ok)
-  | .next | .stepIn | .stepOut => stepPlan dbg h
+  | .restart =>
+    if s.mode != .launch then ([.respond false], .ok)
+    else if dbg == .none then ([], .err)
+    else match h.outcome with
+      | .none => ([.setDbg (if h.dbgAfter == .none then dbg else h.dbgAfter)], .err)   -- `start_debugee_force_with_reason()?`
+      | _ => (.respond true :: emitStop h, .ok)
+  | .restartFrame =>
+    if dbg == .none then ([], .err)
+    else if badArgs r.cmd r.mutn then ([], .err)
+    else if h.callOk then (.respond true :: manualStop "restart" h, .ok)
+    else ([], .err)
+  | .next => stepPlan true dbg h
+  | .stepIn | .stepOut => stepPlan false dbg h
+  | .stepInTargets => query (badArgs r.cmd r.mutn) true dbg h.callOk []
+  | .stepBack | .reverseContinue => ([.respond false], .ok)        -- not supported by the engine
   | .pause =>
     if dbg == .none then ([.respond false], .ok)
     else ([.respond true, .enq [.ev (.stopped "pause")]], .ok)
-  | .disconnect =>
-    if r.mutn == .valid || r.mutn == .nofile then (.respond true :: terminateDebuggee h, .stop)
-    else ([.respond true, .setDbg .none], .stop)                    -- detach
-  | .terminate => (.respond true :: terminateDebuggee h, .stop)
-  | .terminateThreads =>
+  | .gotoTargets => query (badArgs r.cmd r.mutn) true dbg true []
+  | .goto =>
+    if dbg == .none then ([], .err)
+    else if badArgs r.cmd r.mutn then ([], .err)
+    else if h.callOk then (.respond true :: manualStop "goto" h, .ok)
+    else ([], .err)
+  | .evaluate =>
+    if s.cancelledReqs.contains r.seq then ([.consumeReq, .respond false], .ok)
+    else if badArgs r.cmd r.mutn then ([], .err)
+    else if dbg == .inProgress && h.callOk then ([.respond true], .ok)
+    else ([], .err)
+  | .setExpression => query (badArgs r.cmd r.mutn) true dbg h.callOk [.enq [.ev .invalidated], .drain]
+  | .completions =>
     if badArgs r.cmd r.mutn then ([], .err)
-    else (.respond true :: terminateDebuggee h, .ok)
+    else if dbg == .none then ([.respond true], .ok)               -- no debugger: empty target list
+    else if r.param % 2 == 0 then (progBracket ++ [.respond true], .ok)   -- non-empty prefix: symbol search
+    else ([.respond true], .ok)
+  | .loadedSources => ([.respond true], .ok)
+  | .modules => (progBracket ++ [.respond true], .ok)
+  | .readMemory =>
+    if s.cancelledReqs.contains r.seq then ([.consumeReq, .respond false], .ok)
+    else query (badArgs r.cmd r.mutn) true dbg h.callOk []
+  | .writeMemory => query (badArgs r.cmd r.mutn) true dbg h.callOk [.enq [.ev .invalidated], .drain]
+  | .disassemble =>
+    if s.cancelledReqs.contains r.seq then ([.consumeReq, .respond false], .ok)
+    else if badArgs r.cmd r.mutn then ([], .err)
+    else if s.cancelledProgress.contains s.nextProgress then
+      -- second check, `consume_cancellation(req, Some(progress_id))`, before the debugger is looked at
+      ([.progStart, .drain, .consumeProg, .progEnd, .drain, .respond false], .ok)
+    else if dbg == .none then ([.progStart, .drain], .err)
+    else if h.callOk then ([.progStart, .drain, .progUpdate, .progEnd, .drain, .respond true], .ok)
+    else ([.progStart, .drain, .progEnd, .drain, .respond false], .ok)
+  | .terminate => (.respond true :: terminateDebuggee, .stop)
+  | .terminateThreads =>
+    if r.mutn == .illtyped || r.mutn == .noargs then ([], .err)
+    else if r.mutn == .missing || r.param % 4 < 2 then (.respond true :: terminateDebuggee, .ok)   -- no / empty `threadIds`
+    else if h.callOk then ([.respond true, .refresh h.tl, .drain], .ok)                          -- threads signalled
+    else ([], .err)                                               -- bad id (`send_err`) or `kill` failed (`?`)
+  | .cancel =>
+    match r.mutn with
+    | .noargs | .missing => ([.respond true], .ok)                -- null / `{}`
+    | .illtyped =>
+      match r.param % 4 with
+      | 2 => ([.cancelReq (r.param / 4)], .err)                   -- requestId recorded, THEN progressId rejected
+      | _ => ([], .err)
+    | _ =>
+      match r.param % 4 with
+      | 0 => ([.cancelReq (r.param / 4), .respond true], .ok)
+      | 1 => ([.cancelProg (r.param / 4), .respond true], .ok)
+      | 2 => ([.respond true], .ok)
+      | _ => ([.cancelReq (r.param / 4), .cancelProg (r.param / 4), .respond true], .ok)
+  | .runInTerminal =>
+    if badArgs r.cmd r.mutn then ([], .err)
+    else if r.param == 1 then ([.respond true], .ok)               -- a program that exists
+    else ([], .err)                                               -- empty `args` / `spawn` failed
+  | .disconnect =>
+    if r.mutn == .valid || r.mutn == .nofile then (.respond true :: terminateDebuggee, .stop)
+    else ([.respond true, .setDbg .none], .stop)                    -- detach
+  | .source =>
+    if badArgs r.cmd r.mutn then ([], .err)
+    else if r.param % 3 == 2 then ([.respond false], .ok)          -- file not found on the adapter host
+    else ([.respond true], .ok)
   | .frobnicate => ([.respond false], .ok)                        -- `other => send_err`
 
 /-- the rule of `run`: `Err` ⇒ error response and continue; `Ok(false)` ⇒ leave the loop; otherwise
 continue — and continuing means `drain_events()` at the top of the next iteration -/
 def runRule : HRes → List Act
-  | .err => [.respond false, .drain 0]
-  | .ok => [.drain 0]
+  | .err => [.respond false, .drain]
+  | .ok => [.drain]
   | .stop => [.endSession]
 
 /-- everything the session thread does for one request -/
 def fullPlan (s : Sess) (r : Req) (h : Hint) : List Act :=
-  (plan s.dbg s.bpRecords r h).1 ++ runRule (plan s.dbg s.bpRecords r h).2
+  (plan s r h).1 ++ runRule (plan s r h).2
 
 /-- one iteration of `run` for a request; `none` when the session has already ended -/
 def runStep (s : Sess) (r : Req) (h : Hint) : Option (Sess × List Msg) :=
@@ -380,6 +616,14 @@ def runHistory : Sess → List (Req × Hint) → List (Option (List Msg))
     match runStep s r h with
     | none => none :: runHistory s rest
     | some (s', out) => some out :: runHistory s' rest
+
+/-- the session state after a history -/
+def finalSess : Sess → List (Req × Hint) → Sess
+  | s, [] => s
+  | s, (r, h) :: rest =>
+    match runStep s r h with
+    | none => finalSess s rest
+    | some (s', _) => finalSess s' rest
 
 /-- acceptor form (DESIGN 1.2.3): the model accepts a recorded wire, given as one list of messages per
 request, iff it is what the model writes for that history and those debuggee outcomes -/
@@ -406,13 +650,13 @@ inductive Life | fresh | exited | terminated
   deriving Repr, DecidableEq
 
 /-- the combined lifecycle monitor: `none` = violation.
-* a `launch` request opens a new lifecycle;
+* a `launch` / `attach` request opens a new lifecycle;
 * `exited` only in `fresh`, and `terminated` must follow before anything else is written or received;
 * `terminated` only in `fresh`/`exited` (at most once);
 * in `terminated` no event at all may be written (`strict`), or none except `initialized`
   (`strict = false`: what the adapter did while `initialized` bypassed the queue). -/
 def lifeStep (strict : Bool) (st : Life) : Item → Option Life
-  | .req .launch => if st == .exited then none else some .fresh
+  | .req .launch | .req .attach => if st == .exited then none else some .fresh
   | .msg (.event .exited) => if st == .fresh then some .exited else none
   | .msg (.event .terminated) => if st == .terminated then none else some .terminated
   | .msg (.event .initialized) =>
@@ -432,7 +676,7 @@ def lifeRun (strict : Bool) : Life → List Item → Option Life
 /-- weaker monitor 1 (`C12_lifecycle_once`): only the lifecycle events are looked at:
 per lifecycle at most one `exited`, at most one `terminated`, never `exited` after `terminated` -/
 def onceStep (st : Life) : Item → Option Life
-  | .req .launch => some .fresh
+  | .req .launch | .req .attach => some .fresh
   | .msg (.event .exited) => if st == .fresh then some .exited else none
   | .msg (.event .terminated) => if st == .terminated then none else some .terminated
   | _ => some st
@@ -446,7 +690,7 @@ def onceRun : Life → List Item → Option Life
 /-- weaker monitor 2 (`C12_silent_after_terminated`): after `terminated`, no event until a new launch
 (`strict = false`: except `initialized`) -/
 def silentStep (strict : Bool) (st : Bool) : Item → Option Bool
-  | .req .launch => some false
+  | .req .launch | .req .attach => some false
   | .msg (.event .terminated) => if st then none else some true
   | .msg (.event .initialized) => if st && strict then none else some st
   | .msg (.event _) => if st then none else some st
@@ -457,6 +701,22 @@ def silentRun (strict : Bool) : Bool → List Item → Option Bool
   | st, i :: rest => match silentStep strict st i with
     | none => none
     | some st' => silentRun strict st' rest
+
+/-- thread monitor (`C12_thread_events`): the state is the set of threads announced as started and not
+yet as exited.  `thread started t` only for a thread that is not live, `thread exited t` (queued, or sent
+by `emit_process_end`) only for a live one: no exit without a start, no second start without an exit in
+between, each exit at most once. -/
+def threadStep (live : List Nat) : Item → Option (List Nat)
+  | .msg (.event (.q (.threadStarted t))) => if live.contains t then none else some (t :: live)
+  | .msg (.event (.q (.threadExited t))) => if live.contains t then some (live.filter (· != t)) else none
+  | .msg (.event (.threadExitedAtEnd t)) => if live.contains t then some (live.filter (· != t)) else none
+  | _ => some live
+
+def threadRun : List Nat → List Item → Option (List Nat)
+  | live, [] => some live
+  | live, i :: rest => match threadStep live i with
+    | none => none
+    | some live' => threadRun live' rest
 
 /-- the responses of an answer -/
 def resps : List Msg → List Msg
@@ -475,6 +735,18 @@ def hasReset : List Act → Bool
   | [] => false
   | .resetLatch :: _ => true
   | _ :: r => hasReset r
+
+/-- "clean relaunch": whenever a request resets the `terminated` latch (`launch`/`attach` past their
+argument validation), the latch is not set or the thread cache is empty.  (`emit_process_end` announces
+the exit of every cached thread but leaves the cache as it is: a later refresh in a NEW lifecycle
+announces those exits a second time.) -/
+def cleanRelaunch : Sess → List (Req × Hint) → Bool
+  | _, [] => true
+  | s, (r, h) :: rest =>
+    match runStep s r h with
+    | none => cleanRelaunch s rest
+    | some (s', _) =>
+      (!(hasReset (fullPlan s r h)) || !s.terminated || s.threadCache.isEmpty) && cleanRelaunch s' rest
 
 /-- the `respond` actions of a skeleton -/
 def respondActs : List Act → List Bool
